@@ -461,12 +461,15 @@ def judge(W, case, rc, real):
         got = W.enc_value(idx, real[1][idx])
         if idx in winner:
             src, raw = winner[idx]
-            want = W.enc_value(idx, W.validate(idx, raw)[1])
+            wantv = W.validate(idx, raw)[1]
+            want = W.enc_value(idx, wantv)
             if got != want:
-                fails.append("authority: %s should have the value given by %s (%r, validated), but has %r"
-                             % (r["name"], {"dict": "the framework", "file": "the configuration file",
-                                            "env": "GUNICORN_CMD_ARGS", "cli": "the command line"}[src],
-                                short(raw), short(real[1][idx])))
+                fails.append("authority: %s is %s, but the most authoritative source that mentions it is %s with %s, "
+                             "which its validator turns into %s"
+                             % (r["name"], short(real[1][idx]),
+                                {"dict": "the framework", "file": "the configuration file",
+                                 "env": "GUNICORN_CMD_ARGS", "cli": "the command line"}[src],
+                                short(raw), short(wantv)))
         elif got != W.ref_enc[idx]:
             fails.append("untouched: no source mentions %s, but its value is %r instead of the built-in default"
                          % (r["name"], short(real[1][idx])))
@@ -474,7 +477,7 @@ def judge(W, case, rc, real):
 
 
 def short(v):
-    s = repr(v)
+    s = "%s %r" % (type(v).__name__, v) if isinstance(v, (bool, int, str)) else repr(v)
     return s if len(s) < 80 else s[:77] + "..."
 
 
@@ -642,18 +645,19 @@ def part_enc(W, p):
     return W.enc_value(r["idx"], val) if kind == "ok" else None
 
 
-def matrix(W):
+def matrix(W, thorough=False):
     """every setting x every non-empty subset of the sources able to mention it x two value assignments
     (the most authoritative source says one value, all others another; then swapped), without and with
     decoy assignments to another setting in the remaining sources; then the invalid values"""
     cases = []
+    nbad = 8 if thorough else 2
     for r in W.rows:
         app = applicable(r)
         n = len(app)
         for mask in range(1, 1 << n):
             S = [app[i] for i in range(n) if mask >> i & 1]
             top = S[-1]
-            for variant in (0, 1):
+            for variant in ((0, 1, 2, 3) if thorough else (0, 1)):
                 ptop = value_for(W, r, top, variant)
                 e_top = part_enc(W, ptop)
                 parts = []
@@ -664,19 +668,24 @@ def matrix(W):
                     parts.append(p)
                 parts.append(ptop)
                 rest = [s for s in SOURCES if s not in S]
-                if variant == 1:
+                if variant % 2 == 1:
                     parts = decoy_parts(W, r["name"], rest) + parts
-                cases.append({"app": r["name"] != "wsgi_app" or variant == 0, "parts": parts, "env_present": variant == 1,
-                              "file_present": variant == 1, "kind": "matrix", "target": r["name"],
-                              "envquote": 0})
+                if variant >= 2:            # the other spellings: second option string, --flag=value
+                    for p in parts:
+                        if p["src"] in ("env", "cli") and p.get("tok") is not None and p["key"] == r["name"]:
+                            p["flag"] = flag_for(r, 1)
+                            p["style"] = "eq"
+                cases.append({"app": r["name"] != "wsgi_app" or variant % 2 == 0, "parts": parts, "env_present": variant % 2 == 1,
+                              "file_present": variant % 2 == 1, "kind": "matrix", "target": r["name"],
+                              "envquote": variant if variant >= 2 else 0})
         # invalid values: alone, and below a more authoritative valid one (nothing is silently replaced)
         for s in app:
             bad = []
             if s in ("dict", "file"):
-                bad = [{"src": s, "key": r["name"], "val": v} for v in W.pyinvalid[r["idx"]][:2]]
+                bad = [{"src": s, "key": r["name"], "val": v} for v in W.pyinvalid[r["idx"]][:nbad]]
             elif r["action"] != "AStoreConst":
-                bad = [cli_part(W, s, r, t) for t in W.tokinvalid[r["idx"]][:2]]
-                bad += [cli_part(W, s, r, t, style="eq") for t in W.tokusage[r["idx"]][:2]]
+                bad = [cli_part(W, s, r, t) for t in W.tokinvalid[r["idx"]][:nbad]]
+                bad += [cli_part(W, s, r, t, style="eq") for t in W.tokusage[r["idx"]][:nbad]]
             for b in bad:
                 cases.append({"app": True, "parts": [b], "env_present": False, "file_present": False, "kind": "invalid",
                               "target": r["name"], "envquote": 0})
@@ -992,9 +1001,9 @@ def run(ctx):
 
 def _run(ctx, W, ok):
     abbr = W.abbreviations()
-    cases = fixed_cases(W) + matrix(W)
+    cases = fixed_cases(W) + matrix(W, not ctx.quick())
     n_matrix = len(cases)
-    n_random = 1500 if ctx.quick() else 25000
+    n_random = 1500 if ctx.quick() else 15000
     for _ in range(n_random):
         cases.append(random_case(W, ctx.rng, abbr))
     ctx.log("settings: %d (%d on the command line); cases: %d fixed+matrix, %d random" % (
@@ -1015,7 +1024,7 @@ def _run(ctx, W, ok):
         ctx.hist("kind", case["kind"])
         ctx.hist("outcome", "loaded" if real[0] == "ok" else "exit %s" % (real[1],))
         ctx.hist("sources_mentioning_most_contested_setting", max([len(s) for s in srcs.values()] or [0]))
-        if case["kind"] in ("random", "fixed") and len(case["parts"]) >= 2:
+        if case["kind"] in ("random", "matrix") and max([len(x) for x in srcs.values()] or [0]) >= 3 and len(ctx.cov["samples"]) % 2 == (case["kind"] == "random"):
             ctx.sample({"argv": [rel(W, t) for t in rc["argv"]], "GUNICORN_CMD_ARGS": rel(W, rc["env"]),
                         "framework_dict": [[k, short(v)] for k, v in rc["dict"]],
                         "config_file": [[k, short(v)] for k, v in rc["fitems"]],
@@ -1032,8 +1041,23 @@ def _run(ctx, W, ok):
         "unknown keys, bad spellings).  Values come from a pool classified by the real validators.  Non-trivial = some "
         "setting is mentioned by at least two sources, or loading is refused; distinct by the structured case")
     ctx.cov["exhaustive"] = True
+    ctx.cov["trusted_base"] = [
+        "Coq 8.16.1 kernel incl. the vm_compute reduction machine (no native_compute); no axioms (Print Assumptions captured)",
+        "harness/gen/gen_config.py + harness/lib_c16.py: the settings table is read from KNOWN_SETTINGS and from the argparse parser "
+        "object that Config.parser() really builds (option strings, action class, type, const, default) - fail-closed",
+        "the differential correspondence harness harness/props/c16.py (bounded by the loads run) and its independent oracle",
+        "validators are parameters of the theorems; the correspondence feeds the model the real validators' results on the raw values of the run",
+        "CPython argparse / shlex / int() semantics on printable ASCII as modelled in Model/Config.v and Base/Dec.v (validated by the differential run, not verified)",
+        "a configuration file is taken as the name->value map of the executed module",
+    ]
+    ctx.assumptions = [
+        "Model/Config.v corresponds to the implementation on inputs beyond those the correspondence run covered",
+        "outside the model (explicit OutOfModel): non-ASCII argv/environment, a literal '--', --paste on the command line, nargs on a setting",
+        "each validator is a function of its argument (checked on the values of the run)",
+    ]
     ctx.extra["exhaustive_space"] = "settings x source subsets x 2 value assignments (+ invalid values): %d cases" % (n_matrix,)
     ctx.extra["settings"] = len(W.rows)
+    ctx.extra["add_option_default_literal_none (AST fact, informational)"] = L.add_option_default_literal_is_none(W.gc)
     ctx.log("ran %d real loads; oracle failures: %d" % (len(cases), len(failing)))
     # step 4: the property judged on the real loads
     seen_msgs = set()
